@@ -5,6 +5,9 @@ support entry of get_stabilizer is a qubit and supports are never empty (symboli
 for ANY code (qubit index an arbitrary bijection onto [0,n), operator an arbitrary map into {X,Y,Z}) - StabilizerCode.to_bsf and
 from_bsf satisfy their pointwise contracts and are mutually inverse (quantified loop invariants over a ghost 'visited' set; the
 loop bodies are taken from the real AST by symbolic execution of one generic iteration); hash-order independence (taint scan).
+H assembly (C02.H.*: dictionary counting loop, dok copy, csr, data mod 2) and the CSS clauses (C02.css.*: x_indices / z_indices are "row has an entry in the
+X / Z column block", is_css, Hx / Hz are exactly the mask-selected blocks and raise iff not CSS, extract_*_syndrome, the partition lemma and the sector
+lemma) for ANY code over an uninterpreted parity-check matrix.
 Bounded: H rows = to_bsf(get_stabilizer) mod 2, CSS masks/blocks, syndrome sector dependence, random user-defined subclasses,
 indices identical across PYTHONHASHSEED values.
 """
@@ -31,6 +34,9 @@ ASSUMPTIONS = [
     'A-numpy: np.zeros gives zeros; a[i] += 1 updates one element; nonzero() of a 1-D array / canonical CSR row lists the non-zero column indices in ascending order',
     'dict semantics: a store overwrites, keys() iterates each key once (insertion order irrelevant for the to_bsf result)',
     'Python ints / numpy uint do not overflow for counts <= 1 per position (each key visited once)',
+    'A-scipy (CSS clauses): csr.getnnz(1)[i] > 0 <=> row i of that block has a non-zero entry (stored entries are all ones by C02.H.final, so stored = non-zero); '
+    'a[mask] keeps, in order, exactly the rows whose mask entry is True; column slicing [:, :n] / [:, n:] is the sub-block',
+    'congruence of finite sums (sector lemma): equal summands give equal symplectic products',
 ]
 TRUSTED_BASE = ['z3 5.1.0 (LIA, arrays, quantifiers via MBQI/E-matching)', 'pyvc executor + R-builder']
 SC = 'panqec/codes/base/_stabilizer_code.py'
@@ -160,8 +166,8 @@ def sym_to_bsf_body():
 
     class OpMap:
         def acc_attr(s_, x, st, name):
-            if name == 'keys':
-                return ('accmethod', s_, 'keys')
+            if name in ('keys', 'items'):
+                return ('accmethod', s_, name)
             raise Unsupported('operator.%s' % name)
 
         def acc_loop(s_, x, st, s, env):
@@ -337,14 +343,19 @@ def ob_order(timeout=10):
         m = Module.load(rel)
         for cname, c in m.classes.items():
             for fname, f in c.methods.items():
+                def is_set(e):
+                    return isinstance(e, (ast.Set, ast.SetComp)) or (isinstance(e, ast.Call) and ast.unparse(e.func) in ('set', 'frozenset'))
                 for node in ast.walk(f.node):
                     hit = None
+                    # order-revealing uses only: iterating a set, turning it into a sequence, hash(), id()   (membership tests are order-free)
                     if isinstance(node, ast.Call):
                         fn = ast.unparse(node.func)
-                        if fn in ('set', 'frozenset', 'hash', 'id') or fn.endswith('.union') or fn.endswith('.intersection'):
+                        if fn in ('hash', 'id'):
                             hit = fn
-                    if isinstance(node, (ast.Set, ast.SetComp)):
-                        hit = 'set literal/comprehension'
+                        if fn in ('list', 'tuple', 'enumerate', 'np.array', 'iter', 'next') and node.args and is_set(node.args[0]):
+                            hit = '%s(set(...))' % fn
+                    if isinstance(node, (ast.For, ast.comprehension)) and is_set(node.iter):
+                        hit = 'iteration over a set'
                     if hit:
                         (bad if fname in index_funcs else noted).append('%s.%s line %d: %s' % (cname, fname, node.lineno, hit))
                 if fname in index_funcs:
@@ -354,6 +365,138 @@ def ob_order(timeout=10):
                 functions=[dict(function=f.ref, sha256_16=f.sha) for f in funcs[:40]], transparent=[])
 
 
+# ------------------------------------------------------------------------------------------------ CSS clauses (any code)
+def _css_setup():
+    INT = z3.IntSort()
+    m = Module.load(SC); c = m.classes['StabilizerCode']
+    Mr, Nq = z3.Int('m_rows'), z3.Int('n_q')
+    Hf = z3.Function('Hcss', INT, INT, INT)
+    H = Arr((Mr, 2 * Nq), lambda r, c_: Hf(Z(r), Z(c_)), 'uint8', 'cache:stabilizer_matrix', True)
+    rec = dict(nnz=[], sel=[])
+
+    def getnnz(x_, st, a, args, kwargs):
+        # A-scipy: getnnz(axis=1)[i] = number of stored entries of row i; = number of NON-ZERO entries because the assembled matrix stores only ones (C02.H.final)
+        ax = conc(args[0]) if args else conc(kwargs.get('axis'))
+        if ax != 1:
+            raise Unsupported('getnnz(axis=%s)' % ax)
+        F = z3.Function('NNZ_%d' % len(rec['nnz']), INT, INT)
+        rec['nnz'].append((F, a))
+        return Arr((a.shape[0],), lambda i: F(Z(i)), 'int', 'fresh')
+
+    def adv(x_, st, a, specs):
+        # A-numpy/A-scipy: a[mask] keeps, in order, exactly the rows whose mask entry is True
+        if specs[0][0] != 'mask' or any(s_[0] != 'slice' or conc(s_[1]) != 0 or s_[2] is not None for s_ in specs[1:]):
+            raise Unsupported('unexpected advanced index')
+        cnt = z3.Int('rows_sel_%d' % len(rec['sel']))
+        out = Arr((cnt,) + tuple(a.shape[1:]), lambda *i: z3.Function('SEL_%d' % len(rec['sel']), *([INT] * (a.rank + 1)))(*[Z(t) for t in i]), a.dtype, 'fresh', a.sparse)
+        rec['sel'].append((a, specs[0][1], out))
+        return out
+    return m, c, Mr, Nq, Hf, H, rec, {'arr.getnnz': getnnz, 'arr:advanced_index': adv}
+
+
+def ob_css(which, timeout=60):
+    m, c, Mr, Nq, Hf, H, rec, intr = _css_setup()
+    INT = z3.IntSort()
+    i, col = z3.Ints('i c')
+    pre = [Mr >= 1, Nq >= 1, i >= 0, i < Mr, col >= 0, col < Nq]
+    XM = z3.Function('xmask', INT, z3.BoolSort()); ZM = z3.Function('zmask', INT, z3.BoolSort())
+    xm = Arr((Mr,), lambda r: XM(Z(r)), 'bool', 'cache:x_indices'); zm = Arr((Mr,), lambda r: ZM(Z(r)), 'bool', 'cache:z_indices')
+    if which in ('x_indices', 'z_indices'):
+        f = c.methods[which]
+        off = 0 if which == 'x_indices' else Nq
+        selfo = Obj(c, {'stabilizer_matrix': H, 'n': Nq, '_' + which: NONE}, 'code')
+        x = X(m, intr)
+        st, ret = x.run(f, [], {}, selfo)
+        if isinstance(ret, Alt):
+            ret = x._collapse(ret)
+        stored = selfo.fields.get('_' + which)
+        if len(rec['nnz']) != 1 or not isinstance(ret, Arr) or ret.rank != 1:
+            return dict(verdict='refuted', model=None, backend='pyvc-symex', seconds=0, kind='plain', detail='%s is not one getnnz(1) > 0 over a column block of the parity-check matrix' % which,
+                        functions=[dict(function=f.ref, sha256_16=f.sha)], transparent=sorted(x.transparent))
+        F, a = rec['nnz'][0]
+        bad = z3.Or(Z(a.shape[0]) != Mr, Z(a.shape[1]) != Nq, Z(a.f(i, col)) != Hf(i, off + col), B(ret.f(i)) != (F(i) > 0), Z(ret.shape[0]) != Mr,
+                    z3.BoolVal(stored is not ret and not (isinstance(stored, Arr) and stored.f is ret.f)))
+        goal = pre + [bad]
+        return result('css.' + which, check(goal, timeout), [f], x, goal,
+                      detail='%s[i] <=> row i has a stored (= non-zero) entry in columns [%s, %s+n); the mask is cached as computed' % (which, '0' if which == 'x_indices' else 'n', '0' if which == 'x_indices' else 'n'))
+    if which == 'is_css':
+        f = c.methods['is_css']
+        selfo = Obj(c, {'x_indices': xm, 'z_indices': zm, '_is_css': NONE}, 'code')
+        x = X(m, intr)
+        st, ret = x.run(f, [], {}, selfo)
+        r_ = z3.Int('r')
+        want = z3.Not(z3.Exists([r_], z3.And(r_ >= 0, r_ < Mr, XM(r_), ZM(r_))))
+        goal = [Mr >= 0, B(ret) != want]
+        return result('css.is_css', check(goal, timeout), [f], x, goal, detail='is_css <=> no row has both an X block entry and a Z block entry')
+    if which in ('Hx', 'Hz'):
+        f = c.methods[which]
+        off = 0 if which == 'Hx' else Nq
+        mask = xm if which == 'Hx' else zm
+        css = z3.Bool('is_css')
+        empty = Arr((0, 0), lambda r, c_: 0, 'uint8', 'fresh', True)
+        selfo = Obj(c, {'stabilizer_matrix': H, 'n': Nq, 'x_indices': xm, 'z_indices': zm, 'is_css': css, '_' + which: empty}, 'code')
+        x = X(m, intr)
+        st, ret = x.run(f, [], {}, selfo)
+        if isinstance(ret, Alt):
+            ret = x._collapse(ret)
+        problems = []
+        if len(rec['sel']) != 1:
+            problems.append('%s is not one boolean-mask row selection' % which)
+        else:
+            a, mk, out = rec['sel'][0]
+            if mk is not mask:
+                problems.append('%s selects rows with %s' % (which, 'the other mask' if mk in (xm, zm) else 'something that is not the %s row mask' % which[1].lower()))
+            if not (isinstance(ret, Arr) and ret.rank == 2):
+                problems.append('%s does not return a matrix' % which)
+        if problems:
+            return dict(verdict='refuted', model=dict(problems=problems), backend='pyvc-symex', seconds=0, kind='plain', detail='; '.join(problems),
+                        functions=[dict(function=f.ref, sha256_16=f.sha)], transparent=sorted(x.transparent))
+        raised = z3.Or([c_ for c_, _, _ in st.raises] + [z3.BoolVal(False)])
+        i2 = z3.Int('i2')
+        bad = z3.Or(raised != z3.Not(css), z3.And(css, z3.Or(Z(a.shape[0]) != Mr, Z(a.shape[1]) != Nq, Z(a.f(i, col)) != Hf(i, off + col),
+                                                               Z(ret.shape[0]) != Z(out.shape[0]), Z(ret.shape[1]) != Nq, Z(ret.f(i2, col)) != Z(out.f(i2, col)))))
+        goal = pre + [i2 >= 0, i2 < Z(out.shape[0]), bad]
+        return result('css.' + which, check(goal, timeout), [f], x, goal,
+                      detail='%s raises iff the code is not CSS; otherwise it is the rows of H[:, %s:%s] selected by %s_indices' % (which, '0' if which == 'Hx' else 'n', 'n' if which == 'Hx' else '2n', which[1].lower()))
+    if which in ('extract_x_syndrome', 'extract_z_syndrome'):
+        f = c.methods[which]
+        mask = xm if 'x_' in which else zm
+        syn = Arr((Mr,), lambda r: z3.Function('syn', INT, INT)(Z(r)), 'uint8', 'param:syndrome')
+        selfo = Obj(c, {'x_indices': xm, 'z_indices': zm}, 'code')
+        x = X(m, intr)
+        st, ret = x.run(f, [syn], {}, selfo)
+        ok = len(rec['sel']) == 1 and rec['sel'][0][0] is syn and rec['sel'][0][1] is mask and (ret is rec['sel'][0][2])
+        return dict(verdict='discharged' if ok else 'refuted', model=None, backend='pyvc-symex', seconds=0, kind='plain',
+                    detail=('%s(s) = s[%s_indices]' % (which, which[8])) if ok else '%s is not the selection of the syndrome by its own row mask' % which,
+                    functions=[dict(function=f.ref, sha256_16=f.sha)], transparent=sorted(x.transparent))
+    if which == 'partition':
+        # lemma over the contracts above + C02.support (no empty row): on a CSS code every row is in exactly one of the two masks
+        NX = z3.Function('NNZx', INT, INT); NZ = z3.Function('NNZz', INT, INT); w = z3.Function('w', INT, INT)
+        cc = z3.Int('cc')
+        ax = [z3.ForAll([i], (NX(i) > 0) == z3.Exists([cc], z3.And(cc >= 0, cc < Nq, Hf(i, cc) != 0))),
+              z3.ForAll([i], (NZ(i) > 0) == z3.Exists([cc], z3.And(cc >= 0, cc < Nq, Hf(i, Nq + cc) != 0))),
+              z3.ForAll([i], XM(i) == (NX(i) > 0)), z3.ForAll([i], ZM(i) == (NZ(i) > 0)),
+              z3.ForAll([i], z3.Implies(z3.And(i >= 0, i < Mr), z3.And(w(i) >= 0, w(i) < 2 * Nq, Hf(i, w(i)) != 0))),        # C02.support + C02.H.final
+              z3.Not(z3.Exists([i], z3.And(i >= 0, i < Mr, XM(i), ZM(i))))]                                                  # is_css
+        r0 = z3.Int('r0')
+        goal = [Nq >= 1, Mr >= 1, r0 >= 0, r0 < Mr] + ax + [XM(r0) == ZM(r0)]
+        f = c.methods['is_css']
+        return result('css.partition', check(goal, timeout), [f, c.methods['x_indices'], c.methods['z_indices']], None, goal,
+                      detail='CSS and no empty row => x_indices xor z_indices on every row')
+    if which == 'sector':
+        # lemma: on a row of the X mask of a CSS code (Z block of the row is zero) every summand of the symplectic form reads only the Z half of the error
+        ef = z3.Function('e1', INT, INT); eg = z3.Function('e2', INT, INT); cc = z3.Int('cc')
+        r0 = z3.Int('r0')
+        zero_z = z3.ForAll([cc], z3.Implies(z3.And(cc >= 0, cc < Nq), Hf(r0, Nq + cc) == 0))
+        same_z = z3.ForAll([cc], z3.Implies(z3.And(cc >= 0, cc < Nq), ef(Nq + cc) == eg(Nq + cc)))
+        summand = lambda e_: Hf(r0, col) * e_(Nq + col) + Hf(r0, Nq + col) * e_(col)      # noqa
+        goal = [Nq >= 1, col >= 0, col < Nq, zero_z, same_z, summand(ef) != summand(eg)]
+        f = c.methods['measure_syndrome']
+        return result('css.sector', check(goal, timeout), [f], None, goal,
+                      detail='row with zero Z block: summand k of <H_r, e> is H[r,k] e[n+k], so errors with equal Z halves give equal summands (hence equal sums: congruence of the finite sum)')
+    raise Unsupported(which)
+
+
 def obligations(tier):
     to = 120 if tier == 'quick' else 600
     obs = []
@@ -361,7 +504,11 @@ def obligations(tier):
         obs.append(Ob('C02.to_bsf.' + w, ob_to_bsf, dict(which=w), timeout=60, kind='state'))
         obs.append(Ob('C02.from_bsf.' + w, ob_from_bsf, dict(which=w), timeout=60, kind='state'))
     obs.append(Ob('C02.roundtrip', ob_roundtrip, {}, timeout=30))
+    for w in ('inner.init', 'inner.step', 'copy', 'final'):
+        obs.append(Ob('C02.H.' + w, ob_H, dict(which=w), timeout=60, kind='state'))
     obs.append(Ob('C02.order', ob_order, {}, timeout=30, kind='state'))
+    for w in ('x_indices', 'z_indices', 'is_css', 'Hx', 'Hz', 'extract_x_syndrome', 'extract_z_syndrome', 'partition', 'sector'):
+        obs.append(Ob('C02.css.' + w, ob_css, dict(which=w), timeout=60))
     for cls in ALL:
         for which in ('get_qubit_coordinates', 'get_stabilizer_coordinates'):
             if cls == 'HollowRhombicCode' and which == 'get_stabilizer_coordinates':
@@ -592,3 +739,194 @@ def bounded(tier, seed):
                 evaluations=ev, distinct_nontrivial=len(nt),
                 rule='run-time contract native_matrix_contract on real objects (rows of H = BSF image, stored values 1, converters inverse incl. sparse rows, CSS masks/blocks, sector dependence); hash-seed subprocess comparison',
                 samples=samples, violations=viol)
+
+
+# ------------------------------------------------------------------------------------------ H assembly (any code): two-level invariant
+def sym_H_assembly():
+    """symbolic execution of the `stabilizer_matrix` property: one generic outer iteration (row i) containing one generic inner iteration (key loc);
+    the dictionary built so far / the dok matrix are functional maps (r, c) -> int"""
+    m = Module.load(SC)
+    cls = m.classes['StabilizerCode']
+    f = cls.methods['stabilizer_matrix']
+    OP = z3.Function('oprow', z3.IntSort(), Loc, z3.IntSort())        # Pauli of generator i at location: 0 absent, 1 X, 2 Y, 3 Z
+    Dpre = z3.Function('Dpre', z3.IntSort(), z3.IntSort(), z3.IntSort())      # entries counted so far (0 = key absent)
+    i_row, loc = z3.Int('i_row'), z3.Const('hloc', Loc)
+    m_rows = z3.Int('m_rows')
+    state = {'dict': None, 'dok': None, 'loops': [], 'copy': None}
+
+    class FMap2:
+        def __init__(s_, fn):
+            s_.fn = fn; s_.writes = 0
+
+        def _key(s_, key):
+            if not (isinstance(key, T) and len(key.items) == 2):
+                raise Unsupported('dictionary key is not a pair')
+            return Z(key.items[0]), Z(key.items[1])
+
+        def acc_attr(s_, x, st, name):
+            if name in ('keys', 'items', 'get'):
+                return ('accmethod', s_, name)
+            raise Unsupported('dict.%s' % name)
+
+        def acc_call(s_, x, st, name, args, kwargs):
+            if name == 'get' and len(args) == 2:        # absent keys are the zero entries of the functional map
+                r, c = s_._key(args[0])
+                return z3.If(s_.fn(r, c) != 0, s_.fn(r, c), Z(args[1]))
+            raise Unsupported('dict.%s' % name)
+
+        def acc_contains(s_, x, st, item):
+            r, c = s_._key(item)
+            return s_.fn(r, c) != 0
+
+        def acc_index(s_, x, st, key):
+            r, c = s_._key(key)
+            return s_.fn(r, c)
+
+        def acc_store(s_, x, st, key, val):
+            r, c = s_._key(key)
+            old, live, v = s_.fn, st.live, Z(val)
+            s_.fn = lambda a, b, old=old, r=r, c=c, v=v, live=live: z3.If(z3.And(live, a == r, b == c), v, old(a, b))
+            s_.writes += 1
+
+        def acc_loop(s_, x, st, s, env):
+            # `for key, value in sparse_dict.items(): M[key[0], key[1]] = value`  - generic present key
+            kr, kc = z3.Int('key_r'), z3.Int('key_c')
+            state['copy'] = dict(kr=kr, kc=kc, pre=env.get('self').fields['_stabilizer_matrix'], dict_fn=s_.fn)
+            x.assign(s.target, T([T([kr, kc]), s_.fn(kr, kc)]), env, st)
+            live0 = st.live
+            st.live = z3.And(live0, s_.fn(kr, kc) != 0)
+            x.block(s.body, env, st)
+            st.live = live0
+            state['copy']['post'] = env.get('self').fields['_stabilizer_matrix']
+
+    class Dok(FMap2):
+        def acc_attr(s_, x, st, name):
+            if name == 'tocsr':
+                return ('dokmethod', s_, name)
+            raise Unsupported('dok.%s' % name)
+
+    class OpMap:
+        def __init__(s_, row):
+            s_.row = row
+
+        def acc_attr(s_, x, st, name):
+            if name in ('keys', 'items'):
+                return ('accmethod', s_, name)
+            raise Unsupported('operator.%s' % name)
+
+        def acc_loop(s_, x, st, s, env):
+            # inner generic iteration: the dictionary built so far is an arbitrary Dpre (described by the invariant)
+            d = env['sparse_dict']
+            state['inner_init'] = d.fn
+            d.fn = lambda a, b: Dpre(a, b)
+            if getattr(s_, 'iter_kind', 'keys') == 'items':
+                x.assign(s.target, T([LocV(loc), _pauli_E(OP(s_.row, loc))]), env, st)
+            else:
+                x.assign(s.target, LocV(loc), env, st)
+            x.block(s.body, env, st)
+            state['inner_post'] = env['sparse_dict'].fn
+
+        def acc_index(s_, x, st, key):
+            return _pauli_E(OP(s_.row, key.t))
+
+    class Enum:
+        def acc_loop(s_, x, st, s, env):
+            if not (isinstance(s.target, ast.Tuple) and len(s.target.elts) == 2):
+                raise Unsupported('enumerate target')
+            env[s.target.elts[0].id] = i_row
+            env[s.target.elts[1].id] = ('sloc', i_row)
+            live0 = st.live
+            st.live = z3.And(live0, i_row >= 0, i_row < m_rows)
+            state['loops'].append('outer')
+            x.block(s.body, env, st)
+            st.live = live0
+
+    class QIdx:
+        def acc_index(s_, x, st, key):
+            return qidx(key.t)
+
+    def new_dict(x, st):
+        state['dict'] = FMap2(lambda a, b: z3.IntVal(0)); return state['dict']
+
+    def dok_matrix(x, st, a, k):
+        state['dok_shape'] = a[0]
+        state['dok'] = Dok(lambda a_, b_: z3.IntVal(0)); return state['dok']
+
+    def get_stab(x, st, a, k):
+        if not (isinstance(a[0], tuple) and a[0][0] == 'sloc'):
+            raise Unsupported('get_stabilizer is not called on the enumerated location')
+        return OpMap(a[0][1])
+    selfo = Obj(cls, {'n': n_, 'n_stabilizers': m_rows, 'qubit_index': QIdx(), 'stabilizer_coordinates': Opaque('coords'), '_stabilizer_matrix': Opaque('empty')}, 'code')
+    tocsr = []
+
+    class HX(X):
+        def apply(s_, fv, args, kwargs, st, node=None):
+            if isinstance(fv, tuple) and fv and fv[0] == 'dokmethod':
+                tocsr.append(fv[1]); return ('csr', fv[1])
+            return X.apply(s_, fv, args, kwargs, st, node)
+
+        def st_AugAssign(s_, s, env, st):
+            if isinstance(s.target, ast.Attribute) and s.target.attr == 'data' and isinstance(s.op, ast.Mod):
+                base = s_.ev(s.target.value, env, st)
+                if isinstance(base, tuple) and base[0] == 'csr':
+                    state['mod'] = conc(s_.ev(s.value, env, st)); return
+            return X.st_AugAssign(s_, s, env, st)
+    x = HX(m, {'bsparse.is_empty': lambda x_, st, a, k: True, 'new:dict': new_dict, 'dok_matrix': dok_matrix,
+               'enumerate': lambda x_, st, a, k: Enum(), 'self.get_stabilizer': get_stab})
+    st, ret = x.run(f, [], {}, selfo)
+    return dict(f=f, x=x, st=st, ret=ret, state=state, OP=OP, Dpre=Dpre, i=i_row, loc=loc, m=m_rows, tocsr=tocsr, selfo=selfo)
+
+
+def ob_H(which, timeout=60):
+    s = sym_H_assembly()
+    stt, OP, Dpre, i, loc, mr = s['state'], s['OP'], s['Dpre'], s['i'], s['loc'], s['m']
+    problems = []
+    if stt.get('loops') != ['outer'] or 'inner_post' not in stt or stt.get('copy') is None or stt.get('mod') != 2 or len(s['tocsr']) != 1:
+        problems.append('stabilizer_matrix is not: dict; for i, loc in enumerate(coords): for key in get_stabilizer(loc).keys(): count; copy into a dok matrix; tocsr; data %= 2')
+    if not (isinstance(s['ret'], tuple) and s['ret'][0] == 'csr'):
+        problems.append('the property does not return the csr matrix it built')
+    shp = stt.get('dok_shape')
+    if problems:
+        return dict(verdict='refuted', model=dict(problems=problems), backend='pyvc-symex', seconds=0, detail='; '.join(problems), kind='state',
+                    functions=[dict(function=s['f'].ref, sha256_16=s['f'].sha)], transparent=[])
+    V = z3.Function('Vh', Loc, z3.BoolSort()); V2 = z3.Function('Vh2', Loc, z3.BoolSort())
+    l = z3.Const('l', Loc); j = z3.Int('j'); r_, c_ = z3.Ints('r c')
+    op_i = lambda t: OP(i, t)      # noqa
+    dom = z3.ForAll([r_, l], z3.And(OP(r_, l) >= 0, OP(r_, l) <= 3))
+    bij = z3.And(z3.ForAll([l], z3.Implies(op_i(l) != 0, z3.And(qidx(l) >= 0, qidx(l) < n_, coord(qidx(l)) == l))),
+                 z3.ForAll([j], z3.Implies(z3.And(j >= 0, j < n_), qidx(coord(j)) == j)))
+
+    def inv_row(fn, Vf):
+        """row i of the dictionary counts 1 exactly at the BSF positions of the visited keys"""
+        cj = coord(j)
+        return z3.ForAll([j], z3.Implies(z3.And(j >= 0, j < n_), z3.And(
+            fn(i, j) == z3.If(z3.And(Vf(cj), z3.Or(op_i(cj) == 1, op_i(cj) == 2)), 1, 0),
+            fn(i, n_ + j) == z3.If(z3.And(Vf(cj), z3.Or(op_i(cj) == 2, op_i(cj) == 3)), 1, 0))))
+    post = stt['inner_post']
+    base = [n_ >= 0, mr >= 1, i >= 0, i < mr, dom, bij]
+    if which == 'inner.step':
+        frame = z3.And(r_ != i, post(r_, c_) != Dpre(r_, c_))            # other rows untouched
+        goal = base + [inv_row(lambda a, b: Dpre(a, b), V), op_i(loc) != 0, z3.Not(V(loc)), z3.ForAll([l], V2(l) == z3.Or(V(l), l == loc)),
+                       z3.Or(z3.Not(inv_row(post, V2)), frame, z3.Or([c for c, _, _ in s['st'].raises] + [z3.BoolVal(False)]))]
+    elif which == 'inner.init':
+        # before the first key of row i the row is empty (rows are only written in their own outer iteration: frame clause of inner.step)
+        goal = base + [z3.ForAll([c_], Dpre(i, c_) == 0), z3.ForAll([l], z3.Not(V(l))), z3.Not(inv_row(lambda a, b: Dpre(a, b), V))]
+    elif which == 'copy':
+        cp = stt['copy']
+        kr, kc = cp['kr'], cp['kc']
+        pre_fn, post_fn, dfn = cp['pre'].fn, cp['post'].fn, cp['dict_fn']
+        # one generic present key: the dok entry at that key becomes the dictionary value, every other entry is unchanged
+        goal = [z3.Or(post_fn(kr, kc) != dfn(kr, kc), z3.And(z3.Or(r_ != kr, c_ != kc), post_fn(r_, c_) != pre_fn(r_, c_)))]
+        goal = [dfn(kr, kc) != 0] + goal
+    elif which == 'final':
+        # all keys of row i visited, then copy, tocsr, data %= 2:  H[i, j] = x-bit, H[i, n+j] = z-bit, stored values are exactly 1, shape (m, 2n)
+        D = Dpre
+        jj = z3.Int('jj')
+        xb = z3.If(z3.Or(op_i(coord(jj)) == 1, op_i(coord(jj)) == 2), 1, 0); zb = z3.If(z3.Or(op_i(coord(jj)) == 2, op_i(coord(jj)) == 3), 1, 0)
+        shape_ok = isinstance(shp, T) and len(shp.items) == 2
+        goal = base + [inv_row(lambda a, b: D(a, b), V), z3.ForAll([l], V(l) == (op_i(l) != 0)), jj >= 0, jj < n_,
+                       z3.Or(D(i, jj) % 2 != xb, D(i, n_ + jj) % 2 != zb, z3.And(D(i, jj) != 0, D(i, jj) % 2 != 1), z3.And(D(i, n_ + jj) != 0, D(i, n_ + jj) % 2 != 1),
+                             z3.BoolVal(not shape_ok) if not shape_ok else z3.Or(Z(shp.items[0]) != mr, Z(shp.items[1]) != 2 * n_))]
+    r = check(goal, timeout)
+    return result('H.' + which, r, [s['f']], s['x'], goal, kind='state',
+                  detail='generic row i, generic key: dictionary row = BSF image of the visited keys; other rows untouched; dok copy; %2 keeps stored 1s')
